@@ -247,7 +247,7 @@ pub fn check_pos(ctx: &mut Ctx, mp: &MPos, b: &Board) {
 }
 
 pub fn run(ctx: &mut Ctx) {
-    let n = ctx.budget(25_000, 1_200_000);
+    let n = ctx.budget(250_000, 3_000_000);
     let mut src = Sources::standard(n);
     src.three_man = n / 20;
     stream::run(ctx, &src, &mut check_pos);
